@@ -167,7 +167,16 @@ def gen_wstep(rng, tier, index, replicas=None, machines=('48K', '48K', '128K', '
         steps = rng.choice((1, 2, 3))
     phase = gen_phase(rng, machine)
     mag = rng.random()
-    frames = 0 if mag < 0.7 else (rng.randrange(1, 300) if mag < 0.9 else rng.randrange(300, (1 << 27) // frame))
+    if mag < 0.7:
+        frames = 0
+    elif mag < 0.9:
+        frames = rng.randrange(1, 300)
+    elif mag < 0.96:
+        frames = rng.randrange(300, (1 << 27) // frame)
+    else:
+        # long-running clocks: around and beyond 2^31, 2^32, 2^33 and 2^40 T-states (a 20-minute emulated run passes 2^32)
+        frames = rng.choice(((1 << 31) // frame, (1 << 32) // frame, (1 << 32) // frame + 1, (1 << 33) // frame + rng.randrange(0, 50),
+                             (1 << 40) // frame, rng.randrange((1 << 32) // frame, (1 << 36) // frame)))
     regs[25] = frames * frame + phase
     ints = []
     if rng.random() < 0.35:
